@@ -152,11 +152,35 @@ struct Report {
 
     bool timeUp() const { return std::chrono::duration<double>(std::chrono::steady_clock::now() - start).count() > deadlineSeconds; }
 
+    std::string sideFile;      // new violation keys are appended here at once, so that they survive a later crash of the process
     void addOutcome(const Outcome& o, const std::string& caseStr, const std::string& keyPrefix = ""){
         for(const auto& v : o.violations){
             const std::string k = keyPrefix + v.key;
             violationCounts[k] += 1;
-            if(violations.find(k) == violations.end()) violations[k] = {caseStr, v.detail};
+            if(violations.find(k) == violations.end()){
+                violations[k] = {caseStr, v.detail};
+                if(!sideFile.empty()){
+                    std::ofstream f(sideFile, std::ios::app);
+                    f << k << "\x1f" << caseStr << "\x1f" << v.detail << "\x1e";
+                }
+            }
+        }
+    }
+    void mergeSideFile(const std::string& path){
+        std::ifstream f(path); std::stringstream ss; ss << f.rdbuf();
+        const std::string all = ss.str();
+        size_t pos = 0;
+        while(pos < all.size()){
+            const size_t e = all.find('\x1e', pos);
+            if(e == std::string::npos) break;
+            const std::string rec = all.substr(pos, e-pos);
+            const size_t a = rec.find('\x1f'), b = rec.find('\x1f', a+1);
+            if(a != std::string::npos && b != std::string::npos){
+                const std::string k = rec.substr(0, a);
+                violationCounts[k] += 1;
+                if(violations.find(k) == violations.end()) violations[k] = {rec.substr(a+1, b-a-1), rec.substr(b+1)};
+            }
+            pos = e+1;
         }
     }
     void sample(const std::string& s, size_t maxSamples = 6){ if(samples.size() < maxSamples) samples.push_back(s); }
@@ -285,12 +309,14 @@ inline int supervise(const Args& args, const std::string& property, const std::f
     while(true){
         sh->evaluations = sh->nontrivial = sh->states = sh->transitions = sh->traces = 0;
         ::unlink(childOut.c_str());
+        ::unlink((childOut + ".viol").c_str());
         const pid_t pid = fork();
         if(pid == 0){
             const int fd = ::open(childErr.c_str(), O_WRONLY|O_CREAT|O_TRUNC, 0644);
             if(fd >= 0){ dup2(fd, 2); ::close(fd); }
             Report rep; rep.property = property;
             rep.start = total.start; rep.deadlineSeconds = args.deadline;
+            rep.sideFile = childOut + ".viol";
             Progress pg; pg.sh = sh; pg.skipUntil = skipUntil;
             body(rep, pg);
             pg.publish(rep);
@@ -325,6 +351,7 @@ inline int supervise(const Args& args, const std::string& property, const std::f
         if(detail.size() > 900) detail = detail.substr(detail.size()-900);
         Outcome o; o.add(key, detail);
         total.addOutcome(o, std::string(sh->caseText));
+        total.mergeSideFile(childOut + ".viol");
         total.evaluations += sh->evaluations + 1; total.nontrivial += sh->nontrivial;
         total.states += sh->states; total.transitions += sh->transitions; total.traces += sh->traces;
         skipUntil = sh->ordinal;
@@ -343,7 +370,7 @@ inline int supervise(const Args& args, const std::string& property, const std::f
         std::ofstream o2(args.out, std::ios::app);
         o2 << cs.str() << "]}\n";
     }
-    ::unlink(childOut.c_str()); ::unlink((args.out + ".crashes").c_str());
+    ::unlink(childOut.c_str()); ::unlink((args.out + ".crashes").c_str()); ::unlink((childOut + ".viol").c_str());
     return 0;
 }
 
